@@ -309,11 +309,16 @@ fn cli_case(work: &Path, n: u64, cli: &Path, exe: &Path, backend: &str, how: u8,
     let ext = if backend == "ts" { "ts" } else { "rs" };
     // modules spread over the tree with both extensions; decoys that must not be picked up
     let mut files = vec![];
+    // a third of the trees: every module file has the same file name (`types.asn1` in several directories)
+    let same_names = texts.len() <= 4 && rng.chance(1, 3);
+    if same_names {
+        rep.count("cli_trees_with_equal_file_names", 1);
+    }
     for (i, t) in texts.iter().enumerate() {
-        let sub = if dir_style == 3 && i == 0 { "sub/.vendored" } else { ["", "sub", "sub/deeper"][rng.below(3)] };
+        let sub = if dir_style == 3 && i == 0 { "sub/.vendored" } else if same_names { ["", "sub", "sub/deeper", "sub/other"][i % 4] } else { ["", "sub", "sub/deeper"][rng.below(3)] };
         let _ = std::fs::create_dir_all(tree.join(sub));
-        let e = if rng.chance(1, 2) { "asn" } else { "asn1" };
-        let p = tree.join(sub).join(format!("m{i}.{e}"));
+        let e = if same_names { "asn1" } else if rng.chance(1, 2) { "asn" } else { "asn1" };
+        let p = tree.join(sub).join(if same_names { format!("types.{e}") } else { format!("m{i}.{e}") });
         let _ = std::fs::write(&p, t);
         files.push(p);
     }
@@ -459,9 +464,9 @@ fn inputs(seed: u64, idx: u64) -> (Vec<String>, bool) {
 pub fn run(ctx: &Ctx) -> Report {
     let mut rep = Report::new(
         "fault_enumeration",
-        "library: grammar-G module sets (valid, and every third one malformed) x both backends x sources as literals / file paths / mixed x destination state {file absent, existing shorter file, existing longer file, existing file of exactly the new text's length that differs in one character (also as generated.<ext> inside a directory), missing parent directory, parent is a regular file, /dev/full, directory whose generated.<ext> is itself a directory, empty directory, directory with a longer generated.<ext>, stdout, no output} — each case runs compile() in a child process (same environment as the compile_to_string() reference taken in that very process, rustfmt unavailable) with file-system snapshots of the destination tree before and after and captured stdout. CLI: the real rasn_compiler_cli built from /repo with feature cli, on directory trees (nested, .asn and .asn1, decoy files) or -m lists x {-o PATH, --stdout, --no-output, default path} x both backends, compared with the library on the same file set. asn1!: 18 (quick) / 288 (thorough) literals (whole modules, assignments without header - which the macro wraps -, truncated texts, texts with quotes / backslashes / non-ASCII) each as `mod mac_k { asn1!(..) }` next to `mod lib_k { include!(library output) }` in one crate expanded by the real rustc (-Zunpretty=expanded, proc macro built from /repo): the macro panics iff the library returns Err, and the expanded items of the two modules are equal (use declarations as a set). Non-trivial = child finished and all observations judged; distinct by (input, backend, destination state).",
+        "library: grammar-G module sets (valid, and every third one malformed) x both backends x sources as literals / file paths / mixed x destination state {file absent, existing shorter file, existing longer file, existing file of exactly the new text's length that differs in one character (also as generated.<ext> inside a directory), missing parent directory, parent is a regular file, /dev/full, directory whose generated.<ext> is itself a directory, empty directory, directory with a longer generated.<ext>, stdout, no output} — each case runs compile() in a child process (same environment as the compile_to_string() reference taken in that very process, rustfmt unavailable) with file-system snapshots of the destination tree before and after and captured stdout. CLI: the real rasn_compiler_cli built from /repo with feature cli, on directory trees (nested, .asn and .asn1, decoy files, in a third of the trees the same file name in several directories) or -m lists x {-o PATH, --stdout, --no-output, default path} x both backends, compared with the library on the same file set. asn1!: 18 (quick) / 288 (thorough) literals (whole modules, assignments without header - which the macro wraps -, truncated texts, texts with quotes / backslashes / non-ASCII) each as `mod mac_k { asn1!(..) }` next to `mod lib_k { include!(library output) }` in one crate expanded by the real rustc (-Zunpretty=expanded, proc macro built from /repo): the macro panics iff the library returns Err, and the expanded items of the two modules are equal (use declarations as a set). Non-trivial = child finished and all observations judged; distinct by (input, backend, destination state).",
     );
-    rep.must_observe = vec!["library_cases".into(), "cli_invocations".into(), "cli_invocations[-d .]".into(), "cli_invocations[-d .DOTNAME]".into(), "cli_invocations[--stdout on /dev/full]".into(), "library_cases[stdout:/dev/full]".into(), "library_cases[failed-compilation]".into(), "library_cases[unwritable-destination]".into(), "macro_expansions_compared".into(), "macro_failures_matching_library_err".into()];
+    rep.must_observe = vec!["library_cases".into(), "cli_invocations".into(), "cli_invocations[-d .]".into(), "cli_invocations[-d .DOTNAME]".into(), "cli_invocations[--stdout on /dev/full]".into(), "library_cases[stdout:/dev/full]".into(), "library_cases[failed-compilation]".into(), "library_cases[unwritable-destination]".into(), "macro_expansions_compared".into(), "macro_failures_matching_library_err".into(), "cli_trees_with_equal_file_names".into()];
     rep.assumptions = vec!["we run as root: unwritable destinations are produced by ENOTDIR / ENOSPC (/dev/full) / EISDIR, not by mode bits".into(), "asn1!: the wrapping rule (no BEGIN in the literal => dummy AUTOMATIC TAGS module) is replicated by the harness; expansion observed with the nightly toolchain's -Zunpretty=expanded".into()];
     let exe = std::env::current_exe().expect("current_exe");
     let work = std::env::temp_dir().join(format!("vcheck-c20-{}", std::process::id()));
